@@ -74,6 +74,12 @@ def step (st : St) (args : List String) : St × String :=
       if hang then ({ st with dead := true }, "HANG\tstopped")
       else ({ st with started := false, led := finishTask st.led task who }, "stopped\tstopped")
     | _, _ => (st, "bad-op")
+  | ["tx", _, _, _, outs] =>
+    -- the harness refuses outputs to addresses that were never issued (strangers X* are created on demand)
+    if (Led.parseList outs).any (fun o =>
+        let a := (o.splitOn ":").headD ""
+        a != "raw" && !a.startsWith "X" && (AMap.get st.led.own a).isNone && !st.ext.contains a) then (st, "err")
+    else let (l, o) := Led.step st.led args; ({ st with led := l }, o)
   | "notify" :: _ => if st.started then (st, "bad-op") else
       let (l, o) := Led.step st.led args; ({ st with led := l }, o)
   | "recvtx" :: _ => if st.started then (st, "bad-op") else
